@@ -544,15 +544,12 @@ func (te *TemplateEngine) renderLoopsNested(content string, lists map[string][]i
 	// 渲染循环
 	if listData, exists := lists[listVar]; exists {
 		for i, item := range listData {
-			// 创建循环上下文变量
-			loopContent := strings.ReplaceAll(blockContent, "{{this}}", te.interfaceToString(item))
-			loopContent = strings.ReplaceAll(loopContent, "{{@index}}", strconv.Itoa(i))
-			loopContent = strings.ReplaceAll(loopContent, "{{@first}}", strconv.FormatBool(i == 0))
-			loopContent = strings.ReplaceAll(loopContent, "{{@last}}", strconv.FormatBool(i == len(listData)-1))
+			loopContent := blockContent
+			itemMap, isMap := item.(map[string]interface{})
 
-			// 如果item是map，处理属性访问
-			if itemMap, ok := item.(map[string]interface{}); ok {
-				// 首先处理嵌套的循环（在替换变量之前）
+			// 首先处理嵌套的循环（在替换本层的任何变量之前）：内层循环体中的
+			// {{this}}、{{@index}} 等以及与外层同名的字段属于内层的项，必须由内层先替换
+			if isMap {
 				// 为嵌套循环创建新的lists map，包含当前项的列表数据
 				nestedLists := make(map[string][]interface{})
 				for key, value := range itemMap {
@@ -566,7 +563,16 @@ func (te *TemplateEngine) renderLoopsNested(content string, lists map[string][]i
 				if len(nestedLists) > 0 {
 					loopContent = te.renderLoopsNested(loopContent, nestedLists, depth+1)
 				}
+			}
 
+			// 创建循环上下文变量
+			loopContent = strings.ReplaceAll(loopContent, "{{this}}", te.interfaceToString(item))
+			loopContent = strings.ReplaceAll(loopContent, "{{@index}}", strconv.Itoa(i))
+			loopContent = strings.ReplaceAll(loopContent, "{{@first}}", strconv.FormatBool(i == 0))
+			loopContent = strings.ReplaceAll(loopContent, "{{@last}}", strconv.FormatBool(i == len(listData)-1))
+
+			// 如果item是map，处理属性访问
+			if isMap {
 				// 然后替换普通变量
 				for key, value := range itemMap {
 					placeholder := fmt.Sprintf("{{%s}}", key)
